@@ -48,6 +48,8 @@ def check(rep, tier, seed, specs=None, n_override=None):
             rep.add_case(False, None, None)
             continue
         rep.add_case(bool(r.get('n_out')), r.get('feature'), r.get('sample'))
+        if isinstance(spec, dict) and spec.get('stratum'):
+            rep.add_class_case(spec['stratum'])
         d = r.get('describe')
         if r.get('in_canon'):
             rep.add_violation('canonical-peptide-in-output', f"{r['in_canon'][:6]}", spec, mech=r.get('canon_mech'), detail=d)
